@@ -1,5 +1,6 @@
 import KinModel.Drv.Util
 import KinModel.Style
+import KinModel.StyleNest
 open Lean
 namespace KinModel.Drv.C05
 open KinModel.Drv KinModel.Style
@@ -193,7 +194,83 @@ def valBranch : Val → String
   | .nil => "val.nil" | .nilObj => "val.nilmap" | .prim _ => "val.prim" | .arr _ => "val.arr"
   | .obj [] => "val.emptyobj" | .obj _ => "val.obj" | .dobj _ => "val.deep"
 
-def handle (j : Json) : Json :=
+/-! ### deepObject at every depth (schema kind "nest") -/
+
+partial def parseNS (j : Json) : NS :=
+  match getStr j "k" with
+  | "arr" => .arr (parseNS (getD j "items" .null))
+  | "obj" => .obj ((getArr j "props").map (fun kv => (chars (asStr (pair kv).1), parseNS (pair kv).2)))
+      ((getArr j "required").map (fun s => chars (asStr s)))
+      (if isNull j "addl" then none else some (parseNS (getD j "addl" .null)))
+  | _ => .prim (parsePS j)
+
+partial def nvJson (pj : PV → Json) : NV → Json
+  | .nil => Json.null
+  | .p v => pj v
+  | .a xs => Json.arr (xs.map (nvJson pj)).toArray
+  | .o kvs => Json.mkObj (kvs.map (fun kv => (text kv.1, nvJson pj kv.2)))
+
+def noutJson (pj : PV → Json) (o : NOut) : Json :=
+  match o.val with
+  | none => Json.null
+  | some kvs => Json.mkObj (kvs.map (fun kv => (text kv.1, nvJson pj kv.2)))
+
+def noutSame (a b : NOut) : Bool :=
+  (noutJson pvJson a).compress == (noutJson pvJson b).compress && a.found == b.found &&
+  (errStr a.err).compress == (errStr b.err).compress
+
+/-- index-like segments outside the model's domain: non-canonical or signed decimals (strconv.Atoi accepts them) -/
+def oddIndex (s : Str) : Bool :=
+  ((readNat s).isSome && (natIndex s).isNone) ||
+  (match s with
+   | '+' :: d => (readNat d).isSome
+   | '-' :: d => (readNat d).isSome
+   | _ => false)
+
+def handleNest (j : Json) : Json :=
+  let name := chars (getStr j "name")
+  let sj := getD j "schema" .null
+  let props := (getArr sj "props").map (fun kv => (chars (asStr (pair kv).1), parseNS (pair kv).2))
+  let req := (getArr sj "required").map (fun s => chars (asStr s))
+  let addl := if isNull sj "addl" then none else some (parseNS (getD sj "addl" .null))
+  let p : NParam := ⟨name, getBool j "required", getBool j "allowEmpty", props, req, addl⟩
+  let r := parseReq j
+  let r2 : Req := { r with query := r.query.reverse }
+  let dec (fl : Flavour) (rq : Req) : NOut :=
+    if rq.query.isEmpty then ⟨none, false, none⟩ else queryNest fl.prim fl.presenceAware name (fl.deepReq name rq) props req addl
+  let om := dec impl r
+  let om2 := dec impl r2
+  let os := dec spec r
+  let vm := validateNest impl enumHitImpl p r
+  let vm2 := validateNest impl enumHitImpl p r2
+  let vs := validateNest spec enumHitSpec p r
+  let hasAlt := !noutSame om om2 || vm2 != vm
+  let dp := deepProps name r.query
+  let pc : Param := ⟨⟨.query, .deepObject, true⟩, name, p.required, p.allowEmpty, .leaf (.prim { t := .string })⟩
+  let excl :=
+    (if nsEnumInt32 (.obj props req addl) then ["EnumGoType"] else []) ++
+    (if props.isEmpty && addl.isSome then ["QueryObjNoProps"] else []) ++
+    (if DeepKeyJunk pc r then ["DeepKeyJunk"] else [])
+  let unsupported := !collisionOK dp || dp.any (fun kv => kv.1.any (fun s => s.isEmpty || oddIndex s)) ||
+    (reqStrings r).any exoticNumberText
+  let maxSegs := (dp.map (fun kv => kv.1.length)).foldl Nat.max 0
+  let branches := if r.query.isEmpty then [] else
+    ["cell.query.deepObject.x", "shape.nest", s!"nest.schemaDepth.{(NS.obj props req addl).depth}", s!"nest.keyDepth.{maxSegs}",
+     s!"verdict.{verdictStr vm}", (if om.found then "found" else "notfound"),
+     (match om.val with | none => "val.nilmap" | some [] => "val.emptyobj" | some _ => "val.nest")] ++
+    (if hasAlt then ["deep.orderDependent"] else []) ++
+    (if unsupported then ["unsupported.notCompared"] else ["nest.compared", s!"nest.verdict.{verdictStr vm}"]) ++
+    (if vm ≠ vs then ["model≠spec"] else [])
+  jobj [
+    ("model", jobj [("value", noutJson pvJson om), ("found", Json.bool om.found), ("err", errStr om.err), ("verdict", verdictStr vm)]),
+    ("spec", jobj [("value", noutJson pvJsonS os), ("found", Json.bool os.found), ("err", errStr os.err), ("verdict", verdictStr vs),
+                   ("enc_ok", Json.bool true), ("oracle", Json.bool false), ("decode_agrees", Json.bool true)]),
+    ("model_alt", if hasAlt then jobj [("value", noutJson pvJson om2), ("found", Json.bool om2.found), ("err", errStr om2.err), ("verdict", verdictStr vm2)] else Json.null),
+    ("excl", jstrs excl),
+    ("unsupported", Json.bool unsupported),
+    ("branches", jstrs branches)]
+
+def handleFlat (j : Json) : Json :=
   let cell : Cell := ⟨parseLoc (getStr j "in"), parseSty (getStr j "style"), getBool j "explode"⟩
   let name := chars (getStr j "name")
   let sch := parseSch (getD j "schema" .null)
@@ -240,6 +317,7 @@ def handle (j : Json) : Json :=
     (if earlyAbsent cell r then ["early.absent"] else []) ++
     (if resp then ["mode.responseHeader"] else []) ++
     (if hasAlt then ["deep.orderDependent"] else []) ++
+    (if unsupported then ["unsupported.notCompared"] else []) ++
     (if vm ≠ vs then ["model≠spec"] else [])
   jobj [
     ("model", jobj [("value", valJson om.val), ("found", Json.bool om.found), ("err", errStr om.err), ("verdict", verdictStr vm)]),
@@ -250,5 +328,8 @@ def handle (j : Json) : Json :=
     ("excl", jstrs excl),
     ("unsupported", Json.bool unsupported),
     ("branches", jstrs branches)]
+
+def handle (j : Json) : Json :=
+  if getStr (getD j "schema" .null) "k" == "nest" then handleNest j else handleFlat j
 
 end KinModel.Drv.C05
